@@ -240,7 +240,7 @@ func summarizeOps(ops []Op) []string {
 // with the model's expectation.
 func c01Exec(plan *Plan, bubble bool, st *Stats) *Violation {
 	first := true
-	hk := &execHooks{bubble: bubble}
+	hk := &execHooks{bubble: bubble, callsClause: "C01.calls"}
 	hk.afterOp = func(i int, op *Op, got *Resp, h *Host, tr *Trace) *Violation {
 		if got == nil || op.Exp == nil {
 			return nil
